@@ -2,7 +2,10 @@
 # Build the whole Lean side offline: models, lemmas, property theorems of every claimed check
 # (LdarModel.lean imports them) and every driver executable.  Each check rebuilds its own targets
 # again (no-op when up to date), so a driver that fails to build here only fails its own check.
-cd "$(dirname "$0")/lean" || exit 1
+here="$(cd "$(dirname "$0")" && pwd)"
+# tables extracted from /repo first, so that the build starts from the current source
+"$here/tools/regen.sh" || true
+cd "$here/lean" || exit 1
 lake build LdarModel || { echo "setup: library build failed"; exit 1; }
 exes=$(grep -E '^name = "drv_' lakefile.toml | sed 's/name = "\(.*\)"/\1/')
 for e in $exes; do
